@@ -153,7 +153,7 @@ func runC07Store(s c07StoreScen, c *ev.Case) *ev.Violation {
 }
 
 func TestC07Store(t *testing.T) {
-	ev.SetRule("C07", "store: rapid histories (<=30 ops) of AddOrReplace/Remove/ClearAll over topic names of depth<=3 over {a,b,'',$x} against map[topic]msg; sampled filters after every op, ALL valid filters of depth<=3 and all 84 topic names after the last op. wire: generated interleavings of retained publishes / clears (QoS0-2, v3.1.1/v5 publishers) with SUBSCRIBEs (1-2 filters, QoS, RH 0/1/2, RAP, v3.1.1/v5, shared, re-subscription) on a live broker; after every step the messages each subscriber received since the previous step (barrier: ack + API sentinel) are compared with the replay/live model and RetainedService() with the model map. Non-trivial: a replace or clear happened before a lookup/replay with a non-empty answer; distinct by scenario digest.")
+	ev.SetRule("C07", "store: rapid histories (<=30 ops) of AddOrReplace/Remove/ClearAll over topic names of depth<=3 over {a,b,'',$x} against map[topic]msg; sampled filters after every op, ALL valid filters of depth<=3 and all 87 topic names after the last op. wire: generated interleavings of retained publishes / clears (QoS0-2, v3.1.1/v5 publishers) with SUBSCRIBEs (1-2 filters, QoS, RH 0/1/2, RAP, v3.1.1/v5, shared, re-subscription) on a live broker; after every step the messages each subscriber received since the previous step (barrier: ack + API sentinel) are compared with the replay/live model and RetainedService() with the model map. Non-trivial: a replace or clear happened before a lookup/replay with a non-empty answer; distinct by scenario digest.")
 	ev.RunN(t, "C07", 4, genC07Store, runC07Store)
 }
 
